@@ -122,7 +122,7 @@ def run(ctx):
     if ctx.replay:
         case = json.load(open(ctx.replay))["case"]["case"]
         vlib.write_ndjson(os.path.join(wd, "cases.ndjson"), [case])
-        vlib.kverif(["rsp", "--cases", os.path.join(wd, "cases.ndjson"), "--out", os.path.join(wd, "replay.ndjson")])
+        vlib.kverif_restartable("rsp", os.path.join(wd, "cases.ndjson"), os.path.join(wd, "replay.ndjson"))
         validate(os.path.join(wd, "replay.ndjson"), verdict, "replay")
         return verdict.finish()
     thorough = ctx.tier == "thorough"
@@ -139,7 +139,7 @@ def run(ctx):
     singles = [gen_case(rng, i) for i in range(nstreams)]
     sp, st = os.path.join(wd, "single-cases.ndjson"), os.path.join(wd, "single.ndjson")
     vlib.write_ndjson(sp, singles)
-    vlib.kverif(["rsp", "--cases", sp, "--out", st], timeout=3000)
+    vlib.kverif_restartable("rsp", sp, st)
     runs1, failed1, res1 = validate(st, verdict, "single")
     multis = []
     for rid, ev in sorted(runs1.items()):
@@ -151,7 +151,7 @@ def run(ctx):
             multis.append(c)
     mp, mt = os.path.join(wd, "multi-cases.ndjson"), os.path.join(wd, "multi.ndjson")
     vlib.write_ndjson(mp, multis)
-    vlib.kverif(["rsp", "--cases", mp, "--out", mt], timeout=3300)
+    vlib.kverif_restartable("rsp", mp, mt)
     runs2, failed2, res2 = validate(mt, verdict, "multi")
     log(f"L3 {len(runs1)} single-threaded runs ({len(failed1)} rejected), {len(runs2)} multi-threaded runs under perturbed schedules ({len(failed2)} rejected)")
     if mc["violated"] and not (failed1 or failed2):
